@@ -10,6 +10,7 @@ import (
 	"strings"
 	"testing"
 	"unicode"
+	"unicode/utf8"
 
 	"golang.org/x/text/cases"
 	"pgregory.net/rapid"
@@ -375,7 +376,17 @@ func propClosure(c harness.Case) harness.Result {
 	if res.Err != nil {
 		return res
 	}
+	validSources := true
+	for _, b := range blocks {
+		if !utf8.Valid(b.Source) {
+			validSources = false
+		}
+	}
 	for k := range refs {
+		if validSources && !utf8.ValidString(k) {
+			res.Err = fmt.Errorf("reference map key %q is not valid UTF-8 although every block's Source is", k)
+			return res
+		}
 		if trustedNorm(k) != k {
 			res.Err = fmt.Errorf("reference map key %q is not in normalized form (normalizes to %q)", k, trustedNorm(k))
 			return res
@@ -398,7 +409,7 @@ func propClosure(c harness.Case) harness.Result {
 	return res
 }
 
-var soupLabels = []string{"r", "R", "foo", "Foo", "FOO", " foo ", "foo  bar", "Foo\nBar", "ß", "SS", "ẞ", "a\\]b", "Σ", "ς", "x y", "X\tY", "\u00a0a", "a", "İ", "i̇", "ﬁ", "FI", "*a*", "`c`", "<b>", "&amp;", "\\&", "é", "É", "1", "[", "]", "a[b", "a]b", ""}
+var soupLabels = []string{"r", "R", "foo", "Foo", "FOO", " foo ", "foo  bar", "Foo\nBar", "ß", "SS", "ẞ", "a\\]b", "Σ", "ς", "x y", "X\tY", "\u00a0a", "a", "İ", "i̇", "ﬁ", "FI", "*a*", "`c`", "<b>", "&amp;", "\\&", "é", "É", "1", "[", "]", "a[b", "a]b", "", "\x00a\x00", "\x00", "a\x00\x00b\x00c"}
 var soupDests = []string{"/u", "</u v>", "/d \"t\"", "/d 't'", "/d (t)", "", "<>", "/u\n\"ti\ntle\"", "/a\\b", "/u\\", "x\"y", "/u \"t\" x"}
 
 // genRefSoup builds reference-heavy documents: definitions and uses over a
